@@ -164,7 +164,7 @@ reg('C05',
 reg('C06',
     title='responses are framed: ; between units, , between items, one terminator',
     src='c06_framing.c',
-    configs={'quick': ['def'], 'thorough': ['def']},
+    configs={'quick': ['def', 'lf'], 'thorough': ['def', 'lf']},
     deadline={'quick': 100, 'thorough': 1500},
     level=MC,
     technique='bounded-exhaustive enumeration of messages x predecessor histories executed through SCPI_Input (ASan), byte-exact comparison of write()/flush() with a framing model',
@@ -179,7 +179,7 @@ reg('C06',
 reg('C09',
     title='messages and units are isolated: nothing but status and errors carries over',
     src='c09_isolation.c',
-    configs={'quick': ['def'], 'thorough': ['def', 'noinfo']},
+    configs={'quick': ['def', 'heap'], 'thorough': ['def', 'noinfo', 'heap']},
     deadline={'quick': 100, 'thorough': 1500},
     level=MC,
     technique='bounded-exhaustive differential enumeration: every ordered pair of messages executed on the real parser (ASan), trace of B after A compared with B on a fresh context',
@@ -194,7 +194,7 @@ reg('C09',
 reg('C08',
     title='behaviour depends on the byte stream, not on how it is cut into input calls',
     src='c08_chunking.c',
-    configs={'quick': ['def'], 'thorough': ['def', 'heap']},
+    configs={'quick': ['def', 'heap'], 'thorough': ['def', 'heap']},
     deadline={'quick': 100, 'thorough': 1500},
     level=MC,
     technique='exhaustive enumeration of input segmentations (schedules) of bounded streams on the real SCPI_Input (ASan, tail-poisoned buffer), differential against the byte-at-a-time schedule',
